@@ -14,6 +14,8 @@ Section WrapTerm.
   Hypothesis Hcin : 1 <= p_cin pr.
   Hypothesis Hcout : 1 <= p_cout pr.
   Hypothesis Hord : p_order pr = true.
+  Hypothesis Hmidpf : p_mid_peek pr = true -> p_poison_first pr = true.
+  Hypothesis Hmidok : p_mid_peek pr = true -> p_peek_eof_ok pr = true.
 
   Notation I := (I ilen).
   Notation A := (A alen).
@@ -43,14 +45,14 @@ Section WrapTerm.
     | FEofPoison => 1
     | FDone => 0
     end.
-  Definition kw (s : wst) : nat := match w_kpc s with KLines | KPeek => 1 | _ => 0 end.
+  Definition kw (s : wst) : nat := match w_kpc s with KLines => 4 | KMid => 3 | KMidW => 2 | KMid2 | KPeek => 1 | _ => 0 end.
 
   Definition wmeasure (s : wst) : nat :=
     3 * fw s + 2 * (I (TL s) - w_sent s) + (if w_flushing s then 0 else 1)
     + (I (TL s) - w_pushed s) + (I (TL s) - w_cread s)
     + 2 * (A (TL s) - w_crel s) + (if w_cexit s then 0 else 1) + (A (TL s) - w_cwritten s)
     + (A (TL s) - w_kread s)
-    + 2 * (length (w_queue s) + toenq s) + (w_kneed s + qsum (w_queue s) + remlines s) + kw s.
+    + 5 * (length (w_queue s) + toenq s) + (w_kneed s + qsum (w_queue s) + remlines s) + kw s.
 
   (* while the lines of a record are being sent the record is still at the head of the list *)
   Definition SInv (s : wst) : Prop := w_fpc s = FSendSecond -> w_recs s <> [].
@@ -77,10 +79,11 @@ Section WrapTerm.
       destruct (negb (w_cexit s) && Nat.eqb (w_crel s) (w_cwritten s) && (1 <=? m) && (w_cread s + m <=? w_pushed s)
                 && (w_cread s + m <=? I (S (w_clines s)))); [|discriminate].
       destruct (p_echo pr); [inversion H; subst s'; simpl; auto|].
+      destruct (p_early pr); [inversion H; subst s'; simpl; auto|].
       destruct (negb _ && release_now pr _ _); inversion H; subst s'; simpl; auto.
     - unfold step_child_eof in H.
       destruct (negb (w_cexit s) && w_inclosed s && Nat.eqb (w_cread s) (w_pushed s) && Nat.eqb (w_crel s) (w_cwritten s)); [|discriminate].
-      destruct (Nat.eqb (w_crel s) (produced pr alen (w_cread s) (w_clines s))); inversion H; subst s'; simpl; auto.
+      destruct (Nat.eqb (w_crel s) (produced pr ilen alen (w_cread s) (w_clines s))); inversion H; subst s'; simpl; auto.
     - unfold step_child_write in H.
       destruct (negb (w_cexit s) && (1 <=? m) && (w_cwritten s + m <=? w_crel s) && (w_cwritten s + m - w_kread s <=? p_cout pr)); [|discriminate].
       inversion H; subst s'; simpl; auto.
@@ -100,11 +103,11 @@ Section WrapTerm.
   Proof.
     intros J JS H.
     pose proof (produced_le_sent pr ilen alen Hil Hecho Hcin Hcout s J) as [Hps Hcs].
-    pose proof (winv_step pr ilen alen Hil Hal Hecho Hcin Hcout Hord s l s' J H) as J'.
+    pose proof (winv_step pr ilen alen Hil Hal Hecho Hcin Hcout Hord Hmidpf Hmidok s l s' J H) as J'.
     pose proof (produced_le_sent pr ilen alen Hil Hecho Hcin Hcout s' J') as [Hps' Hcs'].
     assert (HIm : forall a b, a <= b -> I a <= I b) by (intros; apply (cum_mono ilen); assumption).
     assert (HAm : forall a b, a <= b -> A a <= A b) by (intros; apply (cum_mono alen); assumption).
-    destruct J as [Jin Jcin Jcl Jrel Jout Jkl Jacct Jnz Jeq Jpcsent Jpcfirst Jclosed Jclp Jexit Jq Jkdone Jerr Jeofc].
+    destruct J as [Jin Jcin Jcl Jrel Jout Jkl Jacct Jnz Jeq Jpcsent Jpcfirst Jclosed Jclp Jexit Jq Jkdone Jerr Jmid2 Jmidp Jeofp Jeofc].
     destruct Jpcfirst as [Hnf Hne].
     assert (Hs1 : w_sentl s <= TL s) by (unfold TL; lia).
     pose proof (HIm _ _ Hs1) as HI1. pose proof (HAm _ _ Hs1) as HA1.
@@ -161,17 +164,18 @@ Section WrapTerm.
                       w_cread s' = w_cread s + m /\ w_cexit s' = false /\ w_cwritten s' = w_cwritten s /\ w_kread s' = w_kread s /\
                       w_queue s' = w_queue s /\ w_kneed s' = w_kneed s /\ w_fpc s' = w_fpc s /\ w_recs s' = w_recs s /\ w_kpc s' = w_kpc s).
       { destruct (p_echo pr); [inversion H; subst s'; unfold TL, remlines; simpl; repeat split; auto|].
+        destruct (p_early pr); [inversion H; subst s'; unfold TL, remlines; simpl; repeat split; auto|].
         destruct (negb _ && release_now pr _ _); inversion H; subst s'; unfold TL, remlines; simpl; repeat split; auto. }
       destruct Hsame as (E1 & E2 & E3 & E4 & E5 & E6 & E7 & E8 & E9 & E10 & E11 & E12 & E13).
       assert (Hcrel : w_crel s <= w_crel s').
-      { destruct J' as [_ _ _ [Hr' _] _ _ _ _ _ _ _ _ _ _ _ _ _ _]. rewrite E7 in Hr'. lia. }
+      { destruct J' as [_ _ _ [Hr' _] _ _ _ _ _ _ _ _ _ _ _ _ _ _ _ _ _]. rewrite E7 in Hr'. lia. }
       unfold fw, toenq, kw, remlines. rewrite E1, E2, E3, E4, E5, E6, E7, E8, E9, E10, E11, E12, E13.
       destruct (w_cexit s); [discriminate|]. lia.
     - (* LChildEof *)
       unfold step_child_eof in H.
       destruct (negb (w_cexit s) && w_inclosed s && Nat.eqb (w_cread s) (w_pushed s) && Nat.eqb (w_crel s) (w_cwritten s)) eqn:G; [|discriminate].
       bprop.
-      destruct (Nat.eqb (w_crel s) (produced pr alen (w_cread s) (w_clines s))) eqn:Ep; bprop; inversion H; subst s'; clear H;
+      destruct (Nat.eqb (w_crel s) (produced pr ilen alen (w_cread s) (w_clines s))) eqn:Ep; bprop; inversion H; subst s'; clear H;
         unfold TL, remlines, fw, toenq, kw in *; simpl.
       + destruct (w_cexit s); [discriminate|]. lia.
       + destruct (w_cexit s); [discriminate|]. destruct Jrel as [_ [Hr _]]. destruct (w_fpc s); simpl in *; lia.
@@ -190,7 +194,7 @@ Section WrapTerm.
         * lia.
         * destruct (p_final_peek pr); simpl; lia.
       + destruct (w_kneed s) as [|need] eqn:En.
-        * inversion H; subst s'; clear H. unfold TL, remlines, fw, toenq, kw; simpl; rewrite ?Ek; simpl. lia.
+        * destruct (p_mid_peek pr); inversion H; subst s'; clear H; unfold TL, remlines, fw, toenq, kw; simpl; rewrite ?Ek; simpl; lia.
         * destruct (A (S (w_klines s)) <=? w_kread s).
           -- inversion H; subst s'; clear H. unfold TL, remlines, fw, toenq, kw; simpl; rewrite ?Ek; simpl. lia.
           -- destruct ((1 <=? m) && (w_kread s + m <=? w_cwritten s)) eqn:G; bprop.
@@ -198,6 +202,17 @@ Section WrapTerm.
                 destruct (w_fpc s); simpl in *; lia.
              ++ destruct (w_cexit s && Nat.eqb (w_kread s) (w_cwritten s)); [|discriminate].
                 inversion H; subst s'; clear H. unfold TL, remlines, fw, toenq, kw; simpl; rewrite ?Ek; simpl. lia.
+      + (* KMid *)
+        destruct (w_queue s) as [|x q] eqn:Eq; inversion H; subst s'; clear H; unfold TL, remlines, fw, toenq, kw; simpl; rewrite ?Ek; simpl; lia.
+      + (* KMidW *)
+        destruct (A (w_klines s) <? w_cwritten s).
+        * inversion H; subst s'; clear H. unfold TL, remlines, fw, toenq, kw; simpl; rewrite ?Ek; simpl. lia.
+        * destruct (w_cexit s) eqn:Ex; [|discriminate].
+          destruct (p_peek_eof_ok pr); inversion H; subst s'; clear H; unfold TL, remlines, fw, toenq, kw;
+            cbn [w_fpc w_recs w_sentl w_sent w_flushing w_pushed w_cread w_crel w_cexit w_cwritten w_kread w_queue w_kneed w_kpc set_coll];
+            rewrite Ek, ?Ex; lia.
+      + (* KMid2 *)
+        destruct (w_queue s) as [|x q] eqn:Eq; inversion H; subst s'; clear H; unfold TL, remlines, fw, toenq, kw; simpl; rewrite ?Ek; simpl; lia.
       + destruct (w_kread s <? w_cwritten s).
         * inversion H; subst s'; clear H. unfold TL, remlines, fw, toenq, kw; simpl; rewrite ?Ek; simpl. lia.
         * destruct (w_cexit s) eqn:Ex; [|discriminate].
@@ -212,7 +227,7 @@ Section WrapTerm.
     - inversion H; subst; simpl; lia.
     - destruct (wstep s l) as [s1|] eqn:E; [|discriminate].
       pose proof (wmeasure_decreases _ _ _ J JS E).
-      pose proof (IH _ _ (winv_step pr ilen alen Hil Hal Hecho Hcin Hcout Hord _ _ _ J E) (sinv_step _ _ _ JS E) H). simpl. lia.
+      pose proof (IH _ _ (winv_step pr ilen alen Hil Hal Hecho Hcin Hcout Hord Hmidpf Hmidok _ _ _ J E) (sinv_step _ _ _ JS E) H). simpl. lia.
   Qed.
 
   (* every run from the initial state is finite: its length is bounded by the initial measure *)
